@@ -149,9 +149,24 @@ pub fn batch(seed: u64, tier: Tier) -> &'static Batch {
     b
 }
 
+/// Probes added after the first list filled the probe slots of the quick batch (wave 16): they take
+/// the first slots with `i % 5 == 3`.
+const PROBES2: &[&str] = &[
+    // placeholders inside the text of an earlier argument (a heap value is being rendered - a
+    // scheduling point - while whatever print holds is held); repeated, so that in a storm several
+    // threads are inside print at once
+    "stel d = [[[\"{}\", \"a{}b\"]], 2.5]; stel i = 0; zolang i < 4 { print(\"{} en {} en {}\", d, \"{}\", i); i = i + 1; }; d",
+    "print(\"{} en {}\", \"{}\", 1); print(\"{}{}\", [\"{}\"], [2.5, \"{}\"]); print(\"{} {}\", string(12), [1.5, \"{}\"], 3);",
+    // every conversion builtin on every kind of value, rendered (formatting and parsing paths)
+    "[string(1.0), string(-2.50), string(100000000000000000000.0), string(0.1 + 0.2), float(\"2.5\"), float(3), int(\"42\"), int(2.9), int(-2.9), string(ja), type(1), type(2.5), type([]), lengte(\"\u{e9}\u{1F600}a\"), lengte([])]",
+    "stel s = \"a\\nb\\tc\\\"d\"; print(\"{}|{}\", s, [s]); [s, lengte(s), [s, s], s == \"a\\nb\\tc\\\"d\"]",
+];
+
 fn make_program(seed: u64, i: usize) -> String {
     if i % 5 == 4 {
         PROBES[(i / 5) % PROBES.len()].to_string()
+    } else if i % 5 == 3 && i / 5 < PROBES2.len() {
+        PROBES2[i / 5].to_string()
     } else if i % 100 == 27 {
         // very long texts: counters of the compiler and the symbol table pass 16-bit boundaries
         // (66 000 block-scoped declarations whose slot is re-used; 12 000 statements = 120 000 bytes of
@@ -628,7 +643,7 @@ fn scenario_threads(acc: &mut Acc, seed: u64, index: u64, tier: Tier, rng: &mut 
     // take a program that renders nested values)
     let storm = rng.chance(1, 8);
     if storm {
-        let renders: Vec<usize> = (0..b.len()).filter(|i| i % 5 == 4 && b.get(*i).contains("print(")).collect();
+        let renders: Vec<usize> = (0..b.len()).filter(|i| (i % 5 == 4 || (i % 5 == 3 && i / 5 < PROBES2.len())) && b.get(*i).contains("print(")).collect();
         let p = if !renders.is_empty() && rng.chance(1, 2) { *rng.pick(&renders) } else { rng.usize(b.len()) };
         let reps = 2 + rng.usize(3);
         for w in idx.iter_mut() {
